@@ -201,7 +201,7 @@ func classify(err error) Verdict {
 	var pe dig.PanicError
 	if errors.As(err, &pe) {
 		v.PanicErr = true
-		if pv, ok := pe.Panic.(*u.PanicVal); ok {
+		if pv, ok := u.AsPanicVal(pe.Panic); ok {
 			v.PanicVal = pv
 		}
 	}
@@ -308,7 +308,7 @@ func (r *Run) Apply(op Op) *Step {
 		defer func() {
 			if p := recover(); p != nil {
 				st.V = Verdict{Escaped: true}
-				if pv, ok := p.(*u.PanicVal); ok {
+				if pv, ok := u.AsPanicVal(p); ok {
 					st.V.PanicVal = pv
 				} else {
 					st.V.EscOther = firstLine(fmt.Sprint(p))
